@@ -233,14 +233,67 @@ def r4_reader_all_directories(repo=None):
     # the list holds every directory where the channel was found
     q = "DigitalRFReader.__init__"
     fn = m.fn(q)
-    src = ast.unparse(fn)
-    if "channel_dict[channel_name].append(top_level_dir)" in src and "for top_level_dir in channel_dict[channel_name]" in src:
-        r.ok("%s:%s %s" % (m.rel, fn.lineno, q), "every top-level directory containing the channel is appended and turned into a "
-             "_top_level_dir_properties entry")
+    g = m.cfg(q)
+    heads = [n for n in g.nodes if n.kind == "cond" and isinstance(n.ast, ast.For)]
+    outer = [n for n in heads if "self._top_level_dir_dict" in ast.unparse(n.ast.iter) and isinstance(n.ast.target, ast.Name)]
+    if len(outer) != 1:
+        raise AnalysisError("%s: loop over self._top_level_dir_dict not found exactly once" % q)
+    dvar = outer[0].ast.target.id
+    found_vars = set()
+    for n in ast.walk(outer[0].ast):
+        if isinstance(n, ast.Assign) and isinstance(n.value, ast.Call) and pyfront.call_name(n.value) == "self._get_channels_in_dir" \
+                and isinstance(n.targets[0], ast.Name):
+            found_vars.add(n.targets[0].id)
+    inner = [n for n in heads if n is not outer[0] and outer[0].ast.lineno < n.ast.lineno <= outer[0].ast.end_lineno
+             and ("self._get_channels_in_dir(%s)" % dvar in ast.unparse(n.ast.iter)
+                  or (isinstance(n.ast.iter, ast.Name) and n.ast.iter.id in found_vars))]
+    if len(inner) != 1:
+        raise AnalysisError("%s: loop over the channels found in a top-level directory not recognised" % q)
+
+    def records(n):
+        if n.ast is None or n.kind == "cond":
+            return False
+        for x in ast.walk(n.ast):
+            if isinstance(x, ast.Call) and isinstance(x.func, ast.Attribute) and x.func.attr == "append" and len(x.args) == 1 \
+                    and isinstance(x.args[0], ast.Name) and x.args[0].id == dvar:
+                return True
+            if isinstance(x, ast.Assign) and isinstance(x.targets[0], ast.Subscript) and isinstance(x.value, ast.List) \
+                    and any(isinstance(e, ast.Name) and e.id == dvar for e in x.value.elts):
+                return True
+        return False
+    rec = [n.id for n in g.nodes if records(n)]
+    if not rec:
+        raise AnalysisError("%s: no statement recording the top-level directory `%s` under the channel name" % (q, dvar))
+    body = [x for x, l in g.succ[inner[0].id] if l == "T"]
+    skip = g.reach(body, avoid=rec + [inner[0].id], skip_labels=("exc",))
+    skips = any(inner[0].id in [x for x, l in g.succ[nid] if l != "exc"] for nid in skip)
+    if skips:
+        r.violation(m.rel, q, "a channel found in `%s` can be skipped without recording the directory" % dvar,
+                    "not every top-level directory holding the channel is recorded", line=inner[0].line)
     else:
-        r.violation(m.rel, q, "channel_dict construction", "not every top-level directory holding the channel is recorded",
-                    line=fn.lineno)
-    r.guard(4)
+        r.ok("%s:%s %s" % (m.rel, inner[0].line, q), "every channel found in a top-level directory records that directory on every path")
+    ctor = [c for c in ast.walk(fn) if isinstance(c, ast.Call) and pyfront.call_name(c) == "_top_level_dir_properties"]
+    if len(ctor) != 1:
+        raise AnalysisError("%s: _top_level_dir_properties(...) construction not found exactly once" % q)
+    encl = m.enclosing(ctor[0], (ast.For, ast.ListComp, ast.GeneratorExp))
+    if encl is None:
+        raise AnalysisError("%s: _top_level_dir_properties(...) is not constructed in a loop" % q)
+    if isinstance(encl, ast.For):
+        it, filt = encl.iter, [x for x in ast.walk(encl) if isinstance(x, (ast.Break, ast.Continue))]
+        tgt = encl.target
+    else:
+        it, filt, tgt = encl.generators[0].iter, list(encl.generators[0].ifs) + encl.generators[1:], encl.generators[0].target
+    sliced = [x for x in ast.walk(it) if isinstance(x, ast.Slice)] or (
+        isinstance(it, ast.Subscript) and isinstance(pyfront.const(it.slice), int))
+    first = ctor[0].args[0] if ctor[0].args else pyfront.kwarg(ctor[0], "top_level_dir")
+    if sliced or filt:
+        r.violation(m.rel, q, "for %s in %s%s" % (norm(ast.unparse(tgt)), norm(ast.unparse(it)), " with a filter/break" if filt else ""),
+                    "only some of the top-level directories recorded for the channel are turned into reader entries", line=encl.lineno)
+    elif isinstance(tgt, ast.Name) and isinstance(first, ast.Name) and first.id == tgt.id:
+        r.ok("%s:%s %s" % (m.rel, encl.lineno, q), "one _top_level_dir_properties entry per recorded directory (%s)" % norm(ast.unparse(it)))
+    else:
+        raise AnalysisError("%s: construction of the per-directory reader entries not recognised" % q)
+    r.guard(5)
     return r
 
 
